@@ -90,6 +90,18 @@ impl RPLL {
     }
 }
 
+#[cfg(idsp_verif)]
+impl RPLL {
+    /// Verification hook: construct from raw state `(dt2, x, ff, f, y)`.
+    pub fn verif_from_raw(dt2: u32, x: i32, ff: u32, f: u32, y: i32) -> Self {
+        Self { dt2, x, ff, f, y }
+    }
+    /// Verification hook: raw state `(dt2, x, ff, f, y)`.
+    pub fn verif_raw(&self) -> (u32, i32, u32, u32, i32) {
+        (self.dt2, self.x, self.ff, self.f, self.y)
+    }
+}
+
 #[cfg(test)]
 mod test {
     use super::RPLL;
